@@ -52,6 +52,7 @@ type c27Case struct {
 	pin       byte   // Go side's Config.Rand pinned to this constant byte (0 = not pinned)
 	fixed     []byte // cached refpeer scalar for the pinned Go key
 	serverLeg bool   // Go server <- refpeer client instead of Go client -> refpeer server
+	keyset    int    // host key set of the server: 0 only the negotiated one; 1 plain then certificate of the family; 2 certificate then plain; 3 another family first, then certificate and plain
 	guess     int    // (b): refpeer sets first_kex_packet_follows in every exchange (2 right, 3 wrong guess)
 }
 
@@ -189,6 +190,7 @@ func (k *c27Case) fill(planSeed uint64, partB bool) {
 		}
 	}
 	k.userKey = int((h >> 60) % 3)
+	k.keyset = int((h >> 48) % 4)
 	if partB {
 		k.guess = int((h >> 52) % 4) // 0,1: refpeer does not guess; 2: guesses right; 3: guesses wrong (Go prefers another kex)
 	}
@@ -234,9 +236,9 @@ func (k c27Case) classes(part string) []string {
 		return []string{part + ":K=" + k.kclass, part + leg, part + ":kex=" + k.kex, part + ":" + pc, part + ":" + rc}
 	}
 	if k.guess >= 2 {
-		return []string{part + ":kex=" + k.kex, part + ":host=" + k.host, part + ":cipher=" + k.ciph, part + ":mac=" + k.effMAC(), part + ":" + pc, part + ":" + rc, part + ":refpeer-" + guessNames[k.guess-1]}
+		return []string{part + ":" + keysetNames[k.keyset], part + ":kex=" + k.kex, part + ":host=" + k.host, part + ":cipher=" + k.ciph, part + ":mac=" + k.effMAC(), part + ":" + pc, part + ":" + rc, part + ":refpeer-" + guessNames[k.guess-1]}
 	}
-	return []string{part + ":kex=" + k.kex, part + ":host=" + k.host, part + ":cipher=" + k.ciph, part + ":mac=" + k.effMAC(), part + ":" + pc, part + ":" + rc}
+	return []string{part + ":" + keysetNames[k.keyset], part + ":kex=" + k.kex, part + ":host=" + k.host, part + ":cipher=" + k.ciph, part + ":mac=" + k.effMAC(), part + ":" + pc, part + ":" + rc}
 }
 
 // enumerate builds this shard's cases: a pairwise covering array (quick) or the full effective cross product (thorough).
@@ -483,6 +485,8 @@ func TestC27(t *testing.T) {
 	// (c) packet-cipher epochs next to counter / IV carries, Go framing against refpeer's
 	c.Oracle("refpeer packet ciphers (validated against the OpenSSH client) under the same key and IV as the Go packet cipher, counters placed next to their carry boundaries")
 	c27CounterEpochs(c, t, planSeed)
+	// (e) plain + certificate host key sets on a Go server, refpeer client preferring either
+	c27KeySets(c, t)
 	// (d) two writers on the Go side while refpeer holds a re-key open
 	c27Writers(c, t, planSeed)
 	if exh {
@@ -536,7 +540,9 @@ func c27RunA(env *sshcli.Env, l net.Listener, k c27Case) c27Outcome {
 	}}
 	cfg.KeyExchanges, cfg.Ciphers, cfg.MACs = []string{k.kex}, []string{k.ciph}, []string{k.mac}
 	cfg.RekeyThreshold = k.goRekey
-	cfg.AddHostKey(signer)
+	for _, sg := range goHostKeySet(k.host, k.keyset, "127.0.0.1") {
+		cfg.AddHostKey(sg)
+	}
 	kh := sshcli.KnownHostsLine(port, signer.PublicKey().Type(), signer.PublicKey().Marshal(), false)
 	if _, cert, _ := hostAlgoKeyName(k.host); cert {
 		kh = sshcli.KnownHostsLine(port, caKey.signer.PublicKey().Type(), caKey.signer.PublicKey().Marshal(), true)
@@ -642,7 +648,7 @@ func c27RunB(k c27Case) c27Outcome {
 	sdone := make(chan srv, 1)
 	var rconn *refpeer.Conn
 	go func() {
-		s, err := refpeer.NewServer(b, refpeer.Config{Strict: true, ExtInfo: true, HostKeys: []refpeer.HostKey{hk}, HostKeyAlgos: []string{k.host},
+		s, err := refpeer.NewServer(b, refpeer.Config{Strict: true, ExtInfo: true, HostKeys: refHostKeySet(k.host, k.keyset, hk), HostKeyAlgos: []string{k.host},
 			Kex: []string{k.kex}, CiphersCS: []string{k.ciph}, MACsCS: []string{k.mac}, Ext: k.ext(), Guess: map[bool]*refpeer.Guess{true: {}}[k.guess >= 2]})
 		rconn = s
 		if err != nil {
@@ -936,4 +942,41 @@ func (r *kRand) Read(p []byte) (int, error) {
 		}
 	}
 	return len(p), nil
+}
+
+var keysetNames = []string{"keyset=negotiated-key-only", "keyset=plain-then-cert", "keyset=cert-then-plain", "keyset=other-family,cert,plain"}
+
+// goHostKeySet builds the Go server's host keys: the key serving algo plus, depending on set, the
+// other form (plain / certificate) of the same key and a key of another family, in AddHostKey order.
+func goHostKeySet(algo string, set int, principal string) []ssh.Signer {
+	name, _, _ := hostAlgoKeyName(algo)
+	plainAlgo := strings.TrimSuffix(algo, certSuffix)
+	plain, cert := goHostSigner(plainAlgo, principal), goHostSigner(plainAlgo+certSuffix, principal)
+	other := keys["ed25519"].signer
+	if name == "ed25519" {
+		other = keys["ecdsa256"].signer
+	}
+	switch set {
+	case 1:
+		return []ssh.Signer{plain, cert}
+	case 2:
+		return []ssh.Signer{cert, plain}
+	case 3:
+		return []ssh.Signer{other, cert, plain}
+	}
+	return []ssh.Signer{goHostSigner(algo, principal)}
+}
+
+func refHostKeySet(algo string, set int, hk refpeer.HostKey) []refpeer.HostKey {
+	plainAlgo := strings.TrimSuffix(algo, certSuffix)
+	plain, cert := refHostKey(plainAlgo, "pipe"), refHostKey(plainAlgo+certSuffix, "pipe")
+	switch set {
+	case 1:
+		return []refpeer.HostKey{plain, cert}
+	case 2:
+		return []refpeer.HostKey{cert, plain}
+	case 3:
+		return []refpeer.HostKey{keys["ecdsa384"].hk, cert, plain}
+	}
+	return []refpeer.HostKey{hk}
 }
